@@ -748,11 +748,12 @@ theorem C04_bond_tx_any_state (s s' : Sys) (sender : Addr) (funds : List (Denom 
 private theorem reported_conclusion (st0 : HubSt) (s' : Sys)
     (h : st0.bRate * (s'.bsei.supply + s'.hub.reqB) ≤ s'.hub.bBond * D ∧
       st0.sRate * (s'.stsei.supply + s'.hub.reqS) ≤ s'.hub.sBond * D ∧
-      s'.hub.bBond + s'.hub.sBond ≤ totalDelegated s') :
+      s'.hub.bBond + s'.hub.sBond ≤ totalDelegated s' ∧
+      s'.hub.bsei = some bseiA ∧ s'.hub.stsei = some stseiA ∧ ChainOK s') :
     (s'.bsei.supply + s'.hub.reqB = 0 ∨ st0.bRate ≤ rateOf s'.hub.bBond s'.bsei.supply s'.hub.reqB) ∧
     (s'.stsei.supply + s'.hub.reqS = 0 ∨ st0.sRate ≤ rateOf s'.hub.sBond s'.stsei.supply s'.hub.reqS) ∧
     s'.hub.bBond + s'.hub.sBond ≤ totalDelegated s' := by
-  refine ⟨?_, ?_, h.2.2⟩
+  refine ⟨?_, ?_, h.2.2.1⟩
   · by_cases hr : st0.bRate = 0
     · right; rw [hr]; exact Nat.zero_le _
     · exact C04_rate_after _ _ _ _ (Nat.pos_of_ne_zero hr) h.1
@@ -836,6 +837,117 @@ theorem C04_unbond_convert_tx_any_state (s s' : Sys) (sender tokA : Addr) (funds
     | reward s2 sender' funds' rm heq _ _ _ _ _ _ _ _ _ => injection heq with _ _ e3 _; cases e3
     | disp env sender' funds' dm heq _ _ _ _ _ _ _ _ => injection heq with _ _ e3 _; cases e3
     | reg s2 sender' funds' rm heq _ _ _ _ _ _ _ _ _ => injection heq with _ _ e3 _; cases e3
+
+/-- the user operations that price: a minting / redeeming hub entry point sent directly, or a token
+    `Send` / `SendFrom` to the hub (unbond, convert) -/
+def PricingOp (m : Msg) : Prop :=
+  (∃ sender hm funds, m = .wasm sender hubA (.hub hm) funds ∧ IsTrigHub hm) ∨
+  (∃ sender tokA tm funds, m = .wasm sender tokA (.tok tm) funds ∧ (tokA = bseiA ∨ tokA = stseiA) ∧
+      sendsToHub hubA tm = true)
+
+/-- **No pricing operation lowers a reported rate — from any state.** Whatever the State query
+    reports before the transaction `(rb, rs)` — with a slash still unrecognised in the books or not
+    — and after it `(rb', rs')`, whether the transaction succeeded or not: for each token the rate
+    did not fall, unless the token ends the transaction without any claims. (Premises: delegations
+    exist, stake is booked and still backed after the pending slash, tokens registered, ledgers
+    well-formed.) -/
+theorem C04_pricing_op_never_lowers_rates_any_state (s : Sys) (m : Msg) (hop : PricingOp m)
+    (c : ChainOK s)
+    (btok : s.hub.bsei = some bseiA) (stok : s.hub.stsei = some stseiA)
+    (bwf : s.bsei.WF) (swf : s.stsei.WF) (bhub : s.bsei.hub = hubA) (shub : s.stsei.hub = hubA)
+    (hd : s.delegationsOf hubA ≠ []) (hz : s.hub.bBond + s.hub.sBond ≠ 0)
+    (st0 : HubSt) (hst0 : s.hub.actualState s.hubEnv = .ok st0)
+    (hz0 : st0.bBond + st0.sBond ≠ 0)
+    (backB : Backed st0.bBond s.bsei.supply s.hub.reqB) (backS : Backed st0.sBond s.stsei.supply s.hub.reqS)
+    (rb' rs' : Nat) (h1 : reportedRates (s.exec m).1 = .ok (rb', rs')) :
+    reportedRates s = .ok (st0.bRate, st0.sRate) ∧
+    ((s.exec m).1.bsei.supply + (s.exec m).1.hub.reqB = 0 ∨ st0.bRate ≤ rb') ∧
+    ((s.exec m).1.stsei.supply + (s.exec m).1.hub.reqS = 0 ∨ st0.sRate ≤ rs') := by
+  have h0 : reportedRates s = .ok (st0.bRate, st0.sRate) := by unfold reportedRates; rw [hst0]
+  refine ⟨h0, ?_⟩
+  unfold Sys.exec at h1 ⊢
+  split at h1
+  · rename_i s' hrun
+    simp only [] at h1 ⊢
+    have key : st0.bRate * (s'.bsei.supply + s'.hub.reqB) ≤ s'.hub.bBond * D ∧
+        st0.sRate * (s'.stsei.supply + s'.hub.reqS) ≤ s'.hub.sBond * D ∧
+        s'.hub.bBond + s'.hub.sBond ≤ totalDelegated s' ∧
+        s'.hub.bsei = some bseiA ∧ s'.hub.stsei = some stseiA ∧ ChainOK s' := by
+      rcases hop with ⟨sender, hm, funds, rfl, ht⟩ | ⟨sender, tokA, tm, funds, rfl, htok, hsend⟩
+      · have inv : PInv s s [.wasm sender hubA (.hub hm) funds] :=
+          ⟨c, SamePools.refl s, btok, stok, bwf, swf, bhub, shub, [], sender, hm, funds, rfl, AllStill.nil, ht⟩
+        exact pending_run s st0 hst0 btok stok hd hz hz0 backB backS 400 s _ s' inv hrun
+      · simp only [Sys.run] at hrun
+        split at hrun
+        · cases hrun
+        · rename_i s1 subs hh
+          have ch := handle_wasm_chain s s1 _ _ _ _ subs hh
+          obtain ⟨a1, a2, a3, a4, a5, a6⟩ := static_step s s1 _ subs hh btok stok bwf swf bhub shub
+          have cok : ChainOK s1 := ⟨fun w hw => by rw [ch.1]; exact c.outside w hw,
+            fun w hw => by rw [ch.1]; rw [ch.2] at hw; exact c.unset w hw⟩
+          have fin : ∀ (pre : List Msg) (u : Addr) (a : Nat) (k : Hook) (tk : Addr), SamePools s s1 →
+              subs = pre ++ [Msg.wasm tk hubA (.hub (.receive u a k)) []] → AllStill pre →
+              (st0.bRate * (s'.bsei.supply + s'.hub.reqB) ≤ s'.hub.bBond * D ∧
+               st0.sRate * (s'.stsei.supply + s'.hub.reqS) ≤ s'.hub.sBond * D ∧
+               s'.hub.bBond + s'.hub.sBond ≤ totalDelegated s' ∧
+               s'.hub.bsei = some bseiA ∧ s'.hub.stsei = some stseiA ∧ ChainOK s') := by
+            intro pre u a k tk sp hsub hpre
+            have inv : PInv s s1 (subs ++ []) :=
+              ⟨cok, sp, a1, a2, a3, a4, a5, a6, pre, tk, .receive u a k, [], by rw [hsub]; simp, hpre,
+                Or.inr (Or.inr ⟨u, a, k, rfl⟩)⟩
+            exact pending_run s st0 hst0 btok stok hd hz hz0 backB backS 399 s1 _ s' inv hrun
+          cases handle_touch s s1 _ subs hh with
+          | none h hm' _ _ =>
+            rcases hm' with hm' | ⟨a, b, c', d, heq, ht⟩
+            · exact absurd rfl (hm' _ _ _ _)
+            · injection heq with _ e2 _ _
+              rcases ht with ht | ht <;> rcases htok with r | r <;> (rw [ht, r] at e2; cases e2)
+          | hub s2 sender' funds' hm' heq _ _ _ _ _ _ _ _ _ => injection heq with _ _ e3 _; cases e3
+          | bsei s2 sender' funds' tm' heq h1' hx' h t r dd g =>
+            injection heq with e1 e2 e3 e4
+            injection e3 with e3
+            subst e1; subst e3; subst e4
+            obtain ⟨pre, u, a, k, hsub, hpre⟩ := bsei_send_hook _ _ _ _ _ _ _ hsend hx'
+            have st := C18_bsei_step _ _ _ _ _ _ _ _ _ bwf hx'
+            have hsup := send_supply _ _ _ _ _ bwf hsend st.1
+            exact fin pre u a k bseiA ⟨by rw [h], by rw [h], by rw [h], by rw [h], by rw [h], by rw [h], by rw [h], by rw [h],
+              hsup, by rw [t], ch.1, ch.2⟩ hsub hpre
+          | stsei blk sender' funds' tm' heq hx' h b r dd g =>
+            injection heq with e1 e2 e3 e4
+            injection e3 with e3
+            subst e1; subst e3; subst e4
+            obtain ⟨pre, u, a, k, hsub, hpre⟩ := stsei_send_hook _ _ _ _ _ _ hsend hx'
+            have st := C18_stsei_step _ _ _ _ _ _ _ _ swf hx'
+            have hsup := send_supply _ _ _ _ _ swf hsend st.1
+            exact fin pre u a k stseiA ⟨by rw [h], by rw [h], by rw [h], by rw [h], by rw [h], by rw [h], by rw [h], by rw [h],
+              by rw [b], hsup, ch.1, ch.2⟩ hsub hpre
+          | reward s2 sender' funds' rm heq _ _ _ _ _ _ _ _ _ => injection heq with _ _ e3 _; cases e3
+          | disp env sender' funds' dm heq _ _ _ _ _ _ _ _ => injection heq with _ _ e3 _; cases e3
+          | reg s2 sender' funds' rm heq _ _ _ _ _ _ _ _ _ => injection heq with _ _ e3 _; cases e3
+    obtain ⟨k4, k5, k3, k6, k7, k8⟩ := key
+    have concl := reported_conclusion st0 s' ⟨k4, k5, k3, k6, k7, k8⟩
+    have r1 := reportedRates_noslash s' k8 k3 k6 k7 rb' rs' h1
+    by_cases hzz : s'.hub.bBond + s'.hub.sBond = 0
+    · have hB : s'.hub.bBond = 0 := by omega
+      have hS : s'.hub.sBond = 0 := by omega
+      rw [hB] at k4; rw [hS] at k5
+      simp only [Nat.zero_mul, Nat.le_zero_eq, Nat.mul_eq_zero] at k4 k5
+      constructor
+      · rcases k4 with h | h
+        · right; rw [h]; exact Nat.zero_le _
+        · left; exact h
+      · rcases k5 with h | h
+        · right; rw [h]; exact Nat.zero_le _
+        · left; exact h
+    · have e := r1.1 hzz
+      rw [e.1, e.2]
+      exact ⟨concl.1, concl.2.1⟩
+  · rename_i e hrun
+    simp only [] at h1 ⊢
+    rw [h0] at h1
+    injection h1 with h1; injection h1 with e1 e2
+    subst e1; subst e2
+    exact ⟨Or.inr (Nat.le_refl _), Or.inr (Nat.le_refl _)⟩
 
 /-! ### CheckSlashing, slash pending or not
 
